@@ -1249,3 +1249,106 @@ Proof.
     apply pdiff_range. exact HP. }
   split; [apply cvc_wrap_range; exact HP | ]. split; [apply cvc_wrap_equiv | reflexivity].
 Qed.
+
+(* ================================================================== round 3 *)
+(* ------------------------------------------------------------------ the restart consistency check never refuses a legitimate resume *)
+(* state saved after an awake step and the job restarted at that step with the same coordinates: same value, accepted *)
+Lemma legit_resume_accepted_awake c p s i :
+  i_running i = true ->
+  let s1 := step Rops c p s i in
+  saved_value s1 = i_x i /\
+  restart_refused Rops c (saved_value s1) true (shift_input (i_step i) i) = false.
+Proof.
+  intros Hrun s1.
+  assert (Hx : saved_value s1 = i_x i).
+  { unfold saved_value, s1, step. destruct (props_xv Rops c s i) as [xe ve]. rewrite Hrun. cbn [negb].
+    destruct (tsf_error c s i); [reflexivity | ].
+    destruct (ext_forces Rops c p xe i) as [[fr fs] fe]. destruct (integrate Rops c p xe ve fe (i_rnd i)) as [[[xn vn] ek] er]. reflexivity. }
+  split; [exact Hx | ]. unfold restart_refused. rewrite Hx. cbn [shift_input i_x i_running i_step].
+  pose proof (no_jump_self c (i_x i)) as Hn. unfold no_jump in Hn. cbn [nltb Rops ndiv nmul n1 nofZ]. 
+  replace (Rltb (1 / IZR 4) (cv_dist2 Rops c (i_x i) (i_x i) / (c_width c * c_width c))) with false by (symmetry; exact Hn).
+  rewrite !andb_false_r. reflexivity.
+Qed.
+
+(* state saved between two slow steps: the first evaluation of the new job is at a later step, whatever the variable did meanwhile *)
+Lemma legit_resume_accepted_asleep (c : @config R) x_saved (i : @input R) :
+  (0 < i_step i)%Z -> restart_refused Rops c x_saved true i = false.
+Proof.
+  intros Hst. unfold restart_refused. replace (Z.eqb (i_step i) 0) with false by (symmetry; apply Z.eqb_neq; lia).
+  rewrite !andb_false_r. reflexivity.
+Qed.
+
+(* and a wrong state file / changed configuration IS refused at the first step *)
+Lemma wrong_state_refused (c : @config R) x_saved (i : @input R) :
+  i_running i = true -> i_step i = 0%Z -> 1 / 4 < cv_dist2 Rops c (i_x i) x_saved / (c_width c * c_width c) ->
+  restart_refused Rops c x_saved true i = true.
+Proof.
+  intros Hrun Hst Hd. unfold restart_refused. rewrite Hrun, Hst. cbn [andb Z.eqb nltb Rops ndiv n1 nofZ nmul].
+  apply Rltb_true. exact Hd.
+Qed.
+
+(* ------------------------------------------------------------------ a state loaded into an object that has already run *)
+Lemma load_in_session c p x v s i :
+  i_running i = true -> (0 <= i_step i)%Z ->
+  step Rops c p (load_state x v s) i = step Rops c p (restart_state Rops x v) i.
+Proof.
+  intros Hrun Hst. unfold step.
+  assert (E : Z.eqb (i_step i) (-1) = false) by (apply Z.eqb_neq; lia).
+  assert (Hp : props_xv Rops c (load_state x v s) i = props_xv Rops c (restart_state Rops x v) i).
+  { unfold props_xv, xext_or. cbn [load_state restart_state s_after_restart s_x_ext s_v_ext s_prev_ts s_x_old s_prev_x s_prev_v].
+    rewrite Hrun, E. cbn [negb andb]. reflexivity. }
+  rewrite Hp. destruct (props_xv Rops c (restart_state Rops x v) i) as [xe ve]. rewrite Hrun. cbn [negb].
+  assert (Ht : tsf_error c (load_state x v s) i = false) by reflexivity.
+  assert (Ht' : tsf_error c (restart_state Rops x v) i = false) by reflexivity.
+  rewrite Ht, Ht'. unfold ft_props. cbn [load_state restart_state s_ft_rep].
+  destruct (ext_forces Rops c p xe i) as [[fr fs] fe]. destruct (integrate Rops c p xe ve fe (i_rnd i)) as [[[xn vn] ek] er].
+  destruct (c_same_step c); reflexivity.
+Qed.
+
+(* ------------------------------------------------------------------ periodic variable with a one-sided reflecting boundary *)
+(* containment needs wrap_ok: with only the lower boundary reflecting the coordinate leaves through the other side of the window, is
+   wrapped, and arrives below the reflecting boundary without any error (witness: period 4 around 0, lower boundary -1, from 3/2 with
+   velocity 1 to 5/2, wrapped to -3/2) *)
+Lemma reflect_periodic_one_sided_escape :
+  exists (c : @config R) (p : @params R) (x v : R) (i : @input R),
+    c_period c = Some (4, 0) /\ c_refl_lo c = true /\ c_refl_up c = false /\ c_lower c <= c_upper c /\ inside c x /\
+    i_running i = true /\
+    let s' := step Rops c p (restart_state Rops x v) i in
+    s_err s' = false /\ s_x_ext s' = Some (- (3 / 2)) /\ ~ inside c (- (3 / 2)).
+Proof.
+  set (c := mkConfig 1 1 1 16 0 1 1%Z (-1) 1 true false 1 (Some (4, 0)) false false).
+  set (p := mkParams 0 1 0 0 false).
+  set (i := mkInput 0%Z (3 / 2) 0 0 0 true).
+  exists c, p, (3 / 2), 1, i.
+  split; [reflexivity | ]. split; [reflexivity | ]. split; [reflexivity | ]. split; [cbn; lra | ].
+  split; [split; intros H; [cbn; lra | discriminate H] | ]. split; [reflexivity | ].
+  assert (Hp : props_xv Rops c (restart_state Rops (3 / 2) 1) i = (3 / 2, 1)).
+  { rewrite (props_continue c _ _ (3 / 2)); [reflexivity | reflexivity | cbn; lia | reflexivity | right; reflexivity]. }
+  assert (He : tsf_error c (restart_state Rops (3 / 2) 1) i = false) by reflexivity.
+  cbn zeta. rewrite (step_running_eq c p _ i eq_refl He). rewrite Hp. cbn [fst snd s_err s_x_ext].
+  assert (Hs : f_spring c p (3 / 2) (i_x i) = 0).
+  { unfold f_spring, spring. cbn [p_k p]. cbn [nmul nneg nhalf ndiv n1 nofZ Rops]. ring. }
+  rewrite Hs. unfold integrate, reflect. rewrite big_dt_R.
+  cbn [c_refl_lo c_refl_up c_lower c_upper c andb orb p_langevin p p_m nadd nsub nmul ndiv nneg nofZ n0 n1 nhalf nltb Rops i_fb i_rnd i c_tsf].
+  unfold Dt. cbn [c_dt c_tsf c].
+  match goal with |- context [Rltb ?a ?b] => replace (Rltb a b) with false by (symmetry; apply Rltb_false; lra) end.
+  cbn [orb fst snd]. unfold cv_wrap. cbn [c_period c]. unfold cvc_wrap. cbn [nsub nmul ndiv nadd nofZ nfloor nhalf n1 Rops].
+  match goal with |- context [Zfloor ?a] => replace (Zfloor a) with 1%Z by (symmetry; apply Zfloor_imp; cbn; lra) end.
+  split; [reflexivity | ]. split; [f_equal; lra | ].
+  intros [H1 _]. specialize (H1 eq_refl). cbn in H1. lra.
+Qed.
+
+(* ------------------------------------------------------------------ routing of one bias according to its bypass flag *)
+Lemma routing_by_bypass c p s i (b : bool) F :
+  i_running i = true -> tsf_error c s i = false ->
+  i_fb i = fst (route_bias Rops b F) -> i_fba i = snd (route_bias Rops b F) ->
+  let xe := fst (props_xv Rops c s i) in
+  let s' := step Rops c p s i in
+  s_f s' = IZR (c_tsf c) * (- f_spring c p xe (i_x i)) + (if b then F else 0) /\
+  s_fr s' = (if b then 0 else F / IZR (c_tsf c)) /\
+  bias_sees b (s_x_rep s') (i_x i) = (if b then i_x i else xe).
+Proof.
+  intros Hrun Herr Hfb Hfba xe s'.
+  destruct (routing_running c p s i Hrun Herr) as (H1 & H2 & H3 & _). fold xe in H1, H3. fold s' in H1, H2, H3.
+  rewrite H1, H2, H3, Hfb, Hfba. unfold route_bias, bias_sees. destruct b; cbn [fst snd n0 Rops]; repeat split; unfold Rdiv; ring.
+Qed.
